@@ -125,10 +125,25 @@ def parse_cbmc(text):
     blocks = re.split(r"^Trace for (.+):$", text, flags=re.M)
     for k in range(1, len(blocks) - 1, 2):
         prop = blocks[k].strip()
-        ms = re.findall(r"^\s*raw=\{ ([^}]*) \}", blocks[k + 1], flags=re.M)
+        blk = blocks[k + 1]
+        ms = re.findall(r"^\s*raw=\{ ([^}]*) \}", blk, flags=re.M)
         if ms:
             ws = [int(x.strip().rstrip("ul")) for x in ms[-1].split(",")]
             traces[prop] = ",".join("%x" % w for w in ws)
+            continue
+        # small arrays are field-sensitive: one assignment per element inside kani::any_raw_array
+        el = {}
+        in_any = False
+        for line in blk.splitlines():
+            if line.startswith("State "):
+                in_any = "function kani::any_raw_array::<u64" in line
+                continue
+            if in_any:
+                m = re.match(r"^\s*var_0\[(\d+)l?\]=(\d+)ul", line)
+                if m and int(m.group(1)) not in el:
+                    el[int(m.group(1))] = int(m.group(2))
+        if el and sorted(el) == list(range(len(el))):
+            traces[prop] = ",".join("%x" % el[i] for i in range(len(el)))
     done = ("VERIFICATION SUCCESSFUL" in text) or ("VERIFICATION FAILED" in text)
     return checks, stats, traces, done
 
